@@ -23,7 +23,7 @@ CONSTANTS
   Lookups = TRUE
   Phased = TRUE
 INIT Init
-NEXT Next
+NEXT MCNext
 VIEW View
 INVARIANT LookupConsistent
 INVARIANT NamesTrimmed
